@@ -7,6 +7,9 @@ GEN   specs/keepstore/KeepstorePut.tla  MC_C02.cfg  (write path step by step; Cr
 RUN   harness/C02_keepstore             kill points in a child process (test binary re-executed), cancel points,
                                         injected write / rename / mkdir errors, on the instrumented working-tree
                                         unix_volume.go; then GET / index / directory scan by a fresh handler
+                                        + a second, overlapping PUT of the same block (rival) that is acknowledged
+                                        while the first stands at a label past CompareAndTouch; the first then
+                                        completes, fails or is cancelled: the acknowledged block must stay
                                         + GET /index running concurrently with the PUT, turn by turn (schedules of
                                         KeepVolume.tla, Gen_C02_index.cfg): the index clause at every instant
 JUDGE specs/keepstore/KeepstorePutTrace.tla (KeepstorePutContract)
@@ -59,7 +62,9 @@ def run(ctx):
             continue      # the behaviour in which the fault was never applied = mode "none"
         if s["mode"] == "werr" and s["pre"] in ("intact_old", "nodir"):
             continue      # the model never reaches a write there either (Touch path / mkdir fails first)
-        uniq.setdefault((s["pre"], s["n"], s["mode"], s["point"], s["occ"]), s)
+        if s["rival"] != "" and not s["rdone"]:
+            continue      # the rival's label was never reached: same as the scenario without rival
+        uniq.setdefault((s["pre"], s["n"], s["mode"], s["point"], s["occ"], s["rival"]), s)
     scns = list(uniq.values())
     # Concretisation of pre = corrupt_old: the corruption KIND (the contract does not care which).  Every kind is
     # used with every scenario that ends in an acknowledgement (mode none / killack); the other scenarios draw one.
@@ -99,6 +104,7 @@ def run(ctx):
                      "ck": rnd.choice(kinds) if pre == "corrupt_old" else "",
                      "steps": [{"a": st["a"], "l": st["l"]} for st in s["steps"]]})
     ctx.extra["index_schedules"] = len(idx)
+    ctx.extra["rival_scenarios"] = sum(1 for s in scns if s.get("rival"))
     for i, s in enumerate(scns):
         s["id"] = i + 1
     by_id = {s["id"]: s for s in scns}
@@ -165,8 +171,8 @@ def run(ctx):
         h = t[0]
         if h["mode"] == "index":
             nontrivial.add(("index", h["pre"], h.get("ck", ""), tuple(h.get("order") or [])))
-        elif h["mode"] != "none" and h.get("reached"):
-            nontrivial.add((h["pre"], h.get("ck", ""), h["n"], h["mode"], h["point"], h["occ"]))
+        elif (h["mode"] != "none" or h.get("rival")) and h.get("reached"):
+            nontrivial.add((h["pre"], h.get("ck", ""), h["n"], h["mode"], h["point"], h["occ"], h.get("rival", "")))
     ctx.extra["distinct_nontrivial"] = len(nontrivial)
     ctx.extra["labels_reached"] = len(reached)
     ctx.rule = ("scenarios = (pre-existing copy none/intact/corrupt/directory/no block dir) x (0, 1, 3 chunks) x "
